@@ -28,7 +28,7 @@ def scenarios(ctx):
     K = [{"k": 1}]
     KT = [{"k": 1, "r": 1}, {"k": 1, "f": 1}]
     tail = dict(h_conv=0.5, stable=0.1, stop_bound=30.0, explore_until=2.2, kill=False, coord_move=False, stop_alt=True,
-                probe_after_stop=True, checks=["c19"], errs={}, faults=["drop-before", "drop-after", "lose"])
+                probe_after_stop=True, checks=["c19"], errs={}, faults=["drop-before", "drop-after", "lose"], k_mid=True)
     for mname, mode in MODES.items():
         extra = dict(tail)
         if mode is not None:
@@ -40,7 +40,6 @@ def scenarios(ctx):
                                                                             fault_apis=["Fetch", "ListOffsets", "Metadata"], **extra), K))
         if not quick:
             out.append((f"group-two-app-{mname}", scen_group.make, gc.two_members(baseline="app", **extra), K))
-    out.append(("group-during-start", scen_group.make, gc.two_members(stop_during_start=True, **tail), K))
     out.append(("group-manual-assign", scen_group.make, gc.two_members(members=[dict(assign=[("t", 0), ("t", 1)])], **tail), K))
     if not quick:
         out.append(("group-two-faults", scen_group.make, gc.two_members(**dict(tail, errs=gc.errs())), KT))
